@@ -2,10 +2,13 @@
   Helper lemmas for C17 / C18 (the predicates on diagrams and on hypergraph morphisms):
   unpacking of deep well-formedness, the plain edge list of a strict hypergraph, degrees as
   `count`s in the flat incidence tables, the closed form of `is_monogamous`, and the closed
-  form of every step of `HArrow.validate`.
+  form of every step of `HArrow.validate`; the correctness of the two-layer frontier search of
+  `is_convex_subgraph` (`convexLoop_spec`, `isConvexSubgraph_spec`).
 -/
+import Mathlib.Data.List.Nodup
 import OHVerif.Spec.Diagram
 import OHVerif.Lemmas.Segs
+import OHVerif.Lemmas.Adjacency
 
 namespace OH
 
@@ -502,3 +505,489 @@ theorem isMorphism_iff (hw : m.Wf) :
 end Graph.HArrow
 
 end OH
+
+/-! ## convexity: the two-layer frontier search -/
+
+namespace OH.Graph
+open OH OH.Prim
+
+/-! ### pieces of the convexity search -/
+
+/-- a node is marked in a 0/1 visited array -/
+def Marked (vis : List Nat) (v : Nat) : Prop := vis.getD v 0 ≠ 0
+
+theorem Marked.lt {vis : List Nat} {v : Nat} (h : Marked vis v) : v < vis.length := by
+  unfold Marked at h
+  by_contra hn
+  simp [List.getD_eq_getElem?_getD, List.getElem?_eq_none (Nat.le_of_not_lt hn)] at h
+
+theorem successors_spec (B : Backend) (hB : B.Lawful) (adj : IC FinFun) (hw : AdjWF adj)
+    (fr : List Nat) (hnd : fr.Nodup) (hlt : ∀ x ∈ fr, x < adj.len) :
+    ∃ ks, successors B adj fr = .ok ks ∧ ks.Nodup ∧
+      (∀ y, y ∈ ks ↔ ∃ x ∈ fr, adjDep adj x y) ∧ ∀ y ∈ ks, y < adj.len := by
+  unfold successors
+  by_cases he : fr.isEmpty
+  · have : fr = [] := List.isEmpty_iff.1 he
+    subst this
+    exact ⟨[], by simp, by simp, by simp, by simp⟩
+  · rw [if_neg he, IC.finfun_new_ok fr adj.len hlt]
+    obtain ⟨keys, counts, hs, hn, _, hm, _, hl, _⟩ :=
+      sparseRelativeIndegree_spec B hB adj hw fr hnd hlt
+    simp only [Res.unwrap_ok, Res.ok_bind, hs]
+    exact ⟨keys, rfl, hn, hm, hl⟩
+
+theorem filterUnvisited_eq (vis cands : List Nat) (h : ∀ y ∈ cands, y < vis.length) :
+    filterUnvisited vis cands = .ok (cands.filter (fun y => decide (vis.getD y 0 = 0))) := by
+  unfold filterUnvisited
+  by_cases he : cands.isEmpty
+  · have : cands = [] := List.isEmpty_iff.1 he
+    subst this; rfl
+  · rw [if_neg he, Prim.gather_ok _ _ h]
+    have hmap : gatherP vis cands = cands.map (fun y => vis.getD y 0) := by
+      apply FinFun.gatherP_eq_map
+      intro i hi
+      simp [List.getD_eq_getElem?_getD, List.getElem?_eq_getElem (h i hi)]
+    simp only [Res.ok_bind, hmap]
+    rw [Prim.gather_ok, Kahn.gatherP_zero_map]
+    intro i hi
+    have := (Prim.mem_zero _ i).1 hi
+    have := (List.getElem?_eq_some_iff.1 this).1
+    simpa using this
+
+theorem mark_spec (vis next : List Nat) (h : ∀ y ∈ next, y < vis.length) :
+    ∃ vis', scatterAssignConstant vis next 1 = .ok vis' ∧ vis'.length = vis.length ∧
+      ∀ v, Marked vis' v ↔ (v ∈ next ∨ Marked vis v) := by
+  refine ⟨_, Prim.scatterAssignConstant_ok vis next 1 h, Prim.writeAll_length _ _, ?_⟩
+  intro v
+  unfold Marked
+  rw [List.getD_eq_getElem?_getD, Prim.writeAll_const_getElem? vis next 1 h v]
+  by_cases hv : v ∈ next
+  · simp [hv]
+  · simp [hv, List.getD_eq_getElem?_getD]
+
+theorem filter_length_le {α : Type} (l : List α) (p q : α → Bool)
+    (hpq : ∀ x ∈ l, q x = true → p x = true) : (l.filter q).length ≤ (l.filter p).length := by
+  induction l with
+  | nil => simp
+  | cons b l ih =>
+    have := ih (fun x hx => hpq x (by simp [hx]))
+    by_cases hqb : q b = true
+    · have hpb := hpq b (by simp) hqb
+      simp [hqb, hpb, this]
+    · by_cases hpb : p b = true
+      · simp [hqb, hpb]; omega
+      · simp [hqb, hpb, this]
+
+theorem filter_length_lt {α : Type} (l : List α) (p q : α → Bool)
+    (hpq : ∀ x ∈ l, q x = true → p x = true)
+    (x : α) (hx : x ∈ l) (hp : p x = true) (hq : q x = false) :
+    (l.filter q).length < (l.filter p).length := by
+  induction l with
+  | nil => simp at hx
+  | cons a l ih =>
+    rcases List.mem_cons.1 hx with rfl | hx'
+    · have := filter_length_le l p q (fun y hy => hpq y (by simp [hy]))
+      simp [hp, hq]; omega
+    · have := ih (fun y hy => hpq y (by simp [hy])) hx'
+      by_cases hqa : q a = true
+      · have hpa := hpq a (by simp) hqa
+        simp [hqa, hpa, this]
+      · by_cases hpa : p a = true
+        · simp [hqa, hpa]; omega
+        · simp [hqa, hpa, this]
+
+/-- number of unmarked nodes -/
+def unmarked (vis : List Nat) : Nat :=
+  ((List.range vis.length).filter (fun v => decide (vis.getD v 0 = 0))).length
+
+theorem unmarked_le (vis : List Nat) : unmarked vis ≤ vis.length := by
+  unfold unmarked
+  have := List.length_filter_le (fun v => decide (vis.getD v 0 = 0)) (List.range vis.length)
+  simpa using this
+
+theorem unmarked_mono (vis vis' : List Nat) (hl : vis'.length = vis.length)
+    (h : ∀ v, Marked vis v → Marked vis' v) : unmarked vis' ≤ unmarked vis := by
+  unfold unmarked
+  rw [hl]
+  apply filter_length_le
+  intro v _ hv
+  simp only [decide_eq_true_eq] at hv ⊢
+  by_contra hc
+  exact (h v hc) hv
+
+theorem unmarked_lt (vis vis' : List Nat) (hl : vis'.length = vis.length)
+    (h : ∀ v, Marked vis v → Marked vis' v) (x : Nat) (hx : ¬ Marked vis x) (hx' : Marked vis' x) :
+    unmarked vis' < unmarked vis := by
+  unfold unmarked
+  rw [hl]
+  apply filter_length_lt _ _ _ _ x
+  · exact List.mem_range.2 (hl ▸ hx'.lt)
+  · unfold Marked at hx; simpa using hx
+  · unfold Marked at hx'; simpa using hx'
+  · intro v _ hv
+    simp only [decide_eq_true_eq] at hv ⊢
+    by_contra hc
+    exact (h v hc) hv
+
+/-- paths along `Rin` / `Rout` steps; the flag records whether an `Rout` step was used -/
+inductive RPath (Rin Rout : Nat → Nat → Prop) (u : Nat) : Nat → Bool → Prop
+  | nil : RPath Rin Rout u u false
+  | consIn (v w : Nat) (b : Bool) : RPath Rin Rout u v b → Rin v w → RPath Rin Rout u w b
+  | consOut (v w : Nat) (b : Bool) : RPath Rin Rout u v b → Rout v w → RPath Rin Rout u w true
+
+theorem RPath.toTrue {Rin Rout : Nat → Nat → Prop} {u v w : Nat} {b : Bool}
+    (h : RPath Rin Rout u v true) (hs : Rin v w ∨ Rout v w) (hb : b = true) :
+    RPath Rin Rout u w b := by
+  subst hb
+  rcases hs with hs | hs
+  · exact RPath.consIn v w true h hs
+  · exact RPath.consOut v w true h hs
+
+section loop
+variable (B : Backend) (aIn aOut aAll : IC FinFun) (img : List Nat)
+
+/-- invariant of the two-layer search -/
+structure CInv (st : ConvexState) : Prop where
+  len0 : st.visited0.length = aIn.len
+  len1 : st.visited1.length = aIn.len
+  nd0 : st.frontier0.Nodup
+  nd1 : st.frontier1.Nodup
+  fr0 : ∀ v ∈ st.frontier0, Marked st.visited0 v
+  fr1 : ∀ v ∈ st.frontier1, Marked st.visited1 v
+  imgM : ∀ u ∈ img, Marked st.visited0 u
+  sound0 : ∀ v, Marked st.visited0 v → ∃ u ∈ img, RPath (adjDep aIn) (adjDep aOut) u v false
+  sound1 : ∀ v, Marked st.visited1 v → ∃ u ∈ img, RPath (adjDep aIn) (adjDep aOut) u v true
+  cIn : ∀ v, Marked st.visited0 v → v ∉ st.frontier0 → ∀ w, adjDep aIn v w → Marked st.visited0 w
+  cOut : ∀ v, Marked st.visited0 v → v ∉ st.frontier0 → ∀ w, adjDep aOut v w → Marked st.visited1 w
+  cAll : ∀ v, Marked st.visited1 v → v ∉ st.frontier1 → ∀ w, adjDep aAll v w → Marked st.visited1 w
+
+/-- what holds when the search stops -/
+structure CFinal (st : ConvexState) : Prop where
+  len1 : st.visited1.length = aIn.len
+  imgM : ∀ u ∈ img, Marked st.visited0 u
+  sound0 : ∀ v, Marked st.visited0 v → ∃ u ∈ img, RPath (adjDep aIn) (adjDep aOut) u v false
+  sound1 : ∀ v, Marked st.visited1 v → ∃ u ∈ img, RPath (adjDep aIn) (adjDep aOut) u v true
+  cIn : ∀ v, Marked st.visited0 v → ∀ w, adjDep aIn v w → Marked st.visited0 w
+  cOut : ∀ v, Marked st.visited0 v → ∀ w, adjDep aOut v w → Marked st.visited1 w
+  cAll : ∀ v, Marked st.visited1 v → ∀ w, adjDep aAll v w → Marked st.visited1 w
+
+variable {aIn aOut aAll img}
+
+/-- at the end, layer 1 holds exactly the nodes reachable from the image by a path that uses an
+    outside step -/
+theorem CFinal.marked1_iff {st : ConvexState} (hf : CFinal aIn aOut aAll img st)
+    (hall : ∀ v w, adjDep aAll v w ↔ adjDep aIn v w ∨ adjDep aOut v w) (v : Nat) :
+    Marked st.visited1 v ↔ ∃ u ∈ img, RPath (adjDep aIn) (adjDep aOut) u v true := by
+  refine ⟨hf.sound1 v, ?_⟩
+  rintro ⟨u, hu, hp⟩
+  have key : ∀ (v : Nat) (b : Bool), RPath (adjDep aIn) (adjDep aOut) u v b →
+      (b = false → Marked st.visited0 v) ∧ (b = true → Marked st.visited1 v) := by
+    intro v b hp
+    induction hp with
+    | nil => exact ⟨fun _ => hf.imgM u hu, fun h => by cases h⟩
+    | consIn v w b _ hs ih =>
+      obtain ⟨i0, i1⟩ := ih
+      exact ⟨fun hb => hf.cIn v (i0 hb) w hs, fun hb => hf.cAll v (i1 hb) w ((hall v w).2 (Or.inl hs))⟩
+    | consOut v w b _ hs ih =>
+      obtain ⟨i0, i1⟩ := ih
+      refine ⟨fun h => (by cases h), fun _ => ?_⟩
+      cases b with
+      | false => exact hf.cOut v (i0 rfl) w hs
+      | true => exact hf.cAll v (i1 rfl) w ((hall v w).2 (Or.inr hs))
+  exact (key v true hp).2 rfl
+
+theorem next1_eq (vis1 merged : List Nat) (hB : B.Lawful) (h : ∀ y ∈ merged, y < vis1.length) :
+    (if merged.isEmpty then Res.ok [] else filterUnvisited vis1 (sparseBincount B merged).1) =
+      .ok ((B.sparseBincount merged).1.filter (fun y => decide (vis1.getD y 0 = 0))) := by
+  by_cases he : merged.isEmpty
+  · have hm : merged = [] := List.isEmpty_iff.1 he
+    have : (B.sparseBincount merged).1 = [] := by
+      apply List.eq_nil_iff_forall_not_mem.2
+      intro a ha
+      rw [hB.sb_mem, hm] at ha
+      simp at ha
+    rw [if_pos he, this]; rfl
+  · rw [if_neg he]
+    apply filterUnvisited_eq
+    intro y hy
+    exact h y ((hB.sb_mem _ _).1 hy)
+
+theorem convexLoop_spec (hB : B.Lawful) (hIn : AdjWF aIn) (hOut : AdjWF aOut) (hAll : AdjWF aAll)
+    (hlo : aOut.len = aIn.len) (hla : aAll.len = aIn.len)
+    (hall : ∀ v w, adjDep aAll v w ↔ adjDep aIn v w ∨ adjDep aOut v w) :
+    ∀ (fuel : Nat) (st : ConvexState), CInv aIn aOut aAll img st →
+      unmarked st.visited0 + unmarked st.visited1 < fuel →
+      ∃ st', convexLoop B aIn aOut aAll fuel st = .ok st' ∧ CFinal aIn aOut aAll img st' := by
+  intro fuel
+  induction fuel with
+  | zero => intro st _ h; omega
+  | succ fuel ih =>
+    intro st inv hμ
+    unfold convexLoop
+    by_cases hemp : st.frontier0.isEmpty = true ∧ st.frontier1.isEmpty = true
+    · rw [if_pos hemp]
+      have e0 : st.frontier0 = [] := List.isEmpty_iff.1 hemp.1
+      have e1 : st.frontier1 = [] := List.isEmpty_iff.1 hemp.2
+      exact ⟨st, rfl, inv.len1, inv.imgM, inv.sound0, inv.sound1,
+        fun v hv => inv.cIn v hv (by simp [e0]), fun v hv => inv.cOut v hv (by simp [e0]),
+        fun v hv => inv.cAll v hv (by simp [e1])⟩
+    · rw [if_neg hemp]
+      have hlt0 : ∀ x ∈ st.frontier0, x < aIn.len := fun x hx => inv.len0 ▸ (inv.fr0 x hx).lt
+      have hlt1 : ∀ x ∈ st.frontier1, x < aIn.len := fun x hx => inv.len1 ▸ (inv.fr1 x hx).lt
+      obtain ⟨k0, hk0, nk0, mk0, lk0⟩ := successors_spec B hB aIn hIn st.frontier0 inv.nd0 hlt0
+      obtain ⟨k10, hk10, _, mk10, lk10⟩ := successors_spec B hB aOut hOut st.frontier0 inv.nd0
+        (fun x hx => hlo ▸ hlt0 x hx)
+      obtain ⟨k11, hk11, _, mk11, lk11⟩ := successors_spec B hB aAll hAll st.frontier1 inv.nd1
+        (fun x hx => hla ▸ hlt1 x hx)
+      have hm : ∀ y ∈ k10 ++ k11, y < st.visited1.length := by
+        intro y hy
+        rw [inv.len1]
+        rcases List.mem_append.1 hy with hy | hy
+        · exact hlo ▸ lk10 y hy
+        · exact hla ▸ lk11 y hy
+      rw [hk0, hk10, hk11]
+      simp only [Res.ok_bind]
+      rw [filterUnvisited_eq st.visited0 k0 (fun y hy => inv.len0 ▸ lk0 y hy)]
+      simp only [Res.ok_bind]
+      rw [next1_eq B st.visited1 (k10 ++ k11) hB hm]
+      simp only [Res.ok_bind]
+      generalize hN0 : k0.filter (fun y => decide (st.visited0.getD y 0 = 0)) = N0
+      generalize hN1 : (B.sparseBincount (k10 ++ k11)).1.filter
+        (fun y => decide (st.visited1.getD y 0 = 0)) = N1
+      have mN0 : ∀ y, y ∈ N0 ↔ (∃ x ∈ st.frontier0, adjDep aIn x y) ∧ ¬ Marked st.visited0 y := by
+        intro y
+        rw [← hN0, List.mem_filter, mk0]
+        simp [Marked]
+      have mN1 : ∀ y, y ∈ N1 ↔ ((∃ x ∈ st.frontier0, adjDep aOut x y) ∨
+          (∃ x ∈ st.frontier1, adjDep aAll x y)) ∧ ¬ Marked st.visited1 y := by
+        intro y
+        rw [← hN1, List.mem_filter, hB.sb_mem, List.mem_append, mk10, mk11]
+        simp [Marked]
+      have ndN0 : N0.Nodup := hN0 ▸ nk0.filter _
+      have ndN1 : N1.Nodup := hN1 ▸ (hB.sb_nodup _).filter _
+      by_cases hnext : N0.isEmpty = true ∧ N1.isEmpty = true
+      · rw [if_pos hnext]
+        have e0 : N0 = [] := List.isEmpty_iff.1 hnext.1
+        have e1 : N1 = [] := List.isEmpty_iff.1 hnext.2
+        refine ⟨st, rfl, inv.len1, inv.imgM, inv.sound0, inv.sound1, ?_, ?_, ?_⟩
+        · intro v hv w hs
+          by_cases hf : v ∈ st.frontier0
+          · by_contra hc
+            have : w ∈ N0 := (mN0 w).2 ⟨⟨v, hf, hs⟩, hc⟩
+            rw [e0] at this; simp at this
+          · exact inv.cIn v hv hf w hs
+        · intro v hv w hs
+          by_cases hf : v ∈ st.frontier0
+          · by_contra hc
+            have : w ∈ N1 := (mN1 w).2 ⟨Or.inl ⟨v, hf, hs⟩, hc⟩
+            rw [e1] at this; simp at this
+          · exact inv.cOut v hv hf w hs
+        · intro v hv w hs
+          by_cases hf : v ∈ st.frontier1
+          · by_contra hc
+            have : w ∈ N1 := (mN1 w).2 ⟨Or.inr ⟨v, hf, hs⟩, hc⟩
+            rw [e1] at this; simp at this
+          · exact inv.cAll v hv hf w hs
+      · rw [if_neg hnext]
+        have l0 : ∀ y ∈ N0, y < st.visited0.length := by
+          intro y hy
+          obtain ⟨⟨x, hx, hs⟩, _⟩ := (mN0 y).1 hy
+          rw [inv.len0]; exact adjDep_lt_right hIn hs
+        have l1 : ∀ y ∈ N1, y < st.visited1.length := by
+          intro y hy
+          rw [inv.len1]
+          rcases ((mN1 y).1 hy).1 with ⟨x, hx, hs⟩ | ⟨x, hx, hs⟩
+          · exact hlo ▸ adjDep_lt_right hOut hs
+          · exact hla ▸ adjDep_lt_right hAll hs
+        obtain ⟨v0, hv0, lv0, mv0⟩ := mark_spec st.visited0 N0 l0
+        obtain ⟨v1, hv1, lv1, mv1⟩ := mark_spec st.visited1 N1 l1
+        rw [hv0]
+        simp only [Res.ok_bind]
+        rw [hv1]
+        simp only [Res.ok_bind]
+        apply ih
+        · refine ⟨lv0.trans inv.len0, lv1.trans inv.len1, ndN0, ndN1,
+            fun v hv => (mv0 v).2 (Or.inl hv), fun v hv => (mv1 v).2 (Or.inl hv),
+            fun u hu => (mv0 u).2 (Or.inr (inv.imgM u hu)), ?_, ?_, ?_, ?_, ?_⟩
+          · intro v hv
+            rcases (mv0 v).1 hv with hv | hv
+            · obtain ⟨⟨x, hx, hs⟩, _⟩ := (mN0 v).1 hv
+              obtain ⟨u, hu, hp⟩ := inv.sound0 x (inv.fr0 x hx)
+              exact ⟨u, hu, RPath.consIn x v false hp hs⟩
+            · exact inv.sound0 v hv
+          · intro v hv
+            rcases (mv1 v).1 hv with hv | hv
+            · rcases ((mN1 v).1 hv).1 with ⟨x, hx, hs⟩ | ⟨x, hx, hs⟩
+              · obtain ⟨u, hu, hp⟩ := inv.sound0 x (inv.fr0 x hx)
+                exact ⟨u, hu, RPath.consOut x v false hp hs⟩
+              · obtain ⟨u, hu, hp⟩ := inv.sound1 x (inv.fr1 x hx)
+                exact ⟨u, hu, hp.toTrue ((hall x v).1 hs) rfl⟩
+            · exact inv.sound1 v hv
+          · intro v hv hnf w hs
+            have hv' : Marked st.visited0 v := by
+              rcases (mv0 v).1 hv with h | h
+              · exact absurd h hnf
+              · exact h
+            by_cases hf : v ∈ st.frontier0
+            · by_cases hc : Marked st.visited0 w
+              · exact (mv0 w).2 (Or.inr hc)
+              · exact (mv0 w).2 (Or.inl ((mN0 w).2 ⟨⟨v, hf, hs⟩, hc⟩))
+            · exact (mv0 w).2 (Or.inr (inv.cIn v hv' hf w hs))
+          · intro v hv hnf w hs
+            have hv' : Marked st.visited0 v := by
+              rcases (mv0 v).1 hv with h | h
+              · exact absurd h hnf
+              · exact h
+            by_cases hf : v ∈ st.frontier0
+            · by_cases hc : Marked st.visited1 w
+              · exact (mv1 w).2 (Or.inr hc)
+              · exact (mv1 w).2 (Or.inl ((mN1 w).2 ⟨Or.inl ⟨v, hf, hs⟩, hc⟩))
+            · exact (mv1 w).2 (Or.inr (inv.cOut v hv' hf w hs))
+          · intro v hv hnf w hs
+            have hv' : Marked st.visited1 v := by
+              rcases (mv1 v).1 hv with h | h
+              · exact absurd h hnf
+              · exact h
+            by_cases hf : v ∈ st.frontier1
+            · by_cases hc : Marked st.visited1 w
+              · exact (mv1 w).2 (Or.inr hc)
+              · exact (mv1 w).2 (Or.inl ((mN1 w).2 ⟨Or.inr ⟨v, hf, hs⟩, hc⟩))
+            · exact (mv1 w).2 (Or.inr (inv.cAll v hv' hf w hs))
+        · -- the measure decreases
+          have m0 := unmarked_mono st.visited0 v0 lv0 (fun v hv => (mv0 v).2 (Or.inr hv))
+          have m1 := unmarked_mono st.visited1 v1 lv1 (fun v hv => (mv1 v).2 (Or.inr hv))
+          have : unmarked v0 < unmarked st.visited0 ∨ unmarked v1 < unmarked st.visited1 := by
+            by_cases e0 : N0 = []
+            · have e1 : N1 ≠ [] := fun e1 => hnext ⟨by simp [e0], by simp [e1]⟩
+              obtain ⟨y, hy⟩ := List.exists_mem_of_ne_nil _ e1
+              exact Or.inr (unmarked_lt _ _ lv1 (fun v hv => (mv1 v).2 (Or.inr hv)) y
+                ((mN1 y).1 hy).2 ((mv1 y).2 (Or.inl hy)))
+            · obtain ⟨y, hy⟩ := List.exists_mem_of_ne_nil _ e0
+              exact Or.inl (unmarked_lt _ _ lv0 (fun v hv => (mv0 v).2 (Or.inr hv)) y
+                ((mN0 y).1 hy).2 ((mv0 y).2 (Or.inl hy)))
+          show unmarked v0 + unmarked v1 < fuel
+          omega
+
+end loop
+
+/-! ### adjacency from a pair of incidence arrays -/
+
+theorem nodeAdjacencyFromIncidence_spec (B : Backend) (hB : B.Lawful) (s t : IC FinFun)
+    (hs : s.wf = true) (ht : t.wf = true) (hlen : s.len = t.len)
+    (htgt : s.values.target = t.values.target) :
+    ∃ a, nodeAdjacencyFromIncidence B s t = .ok a ∧ AdjWF a ∧ a.len = s.values.target ∧
+      ∀ v w, adjDep a v w ↔ ∃ e, v ∈ s.segs.getD e [] ∧ w ∈ t.segs.getD e [] := by
+  have hH : (⟨s, t, List.replicate s.values.target (), List.replicate s.len ()⟩ :
+      HG Unit Unit).wf = true := by
+    simp [HG.wf, hs, ht, hlen.symm, htgt.symm]
+  obtain ⟨a, ha, hawf, halen, _, hdep⟩ := nodeAdjacency_spec B hB _ hH
+  refine ⟨a, ha, hawf, by simpa using halen, ?_⟩
+  intro v w
+  rw [hdep]
+  unfold nodeStep
+  simp only [mem_toPlainEdges _ hH]
+  constructor
+  · rintro ⟨e, ⟨x, _, _, hes, het⟩, hv, hw⟩
+    exact ⟨x, hes ▸ hv, het ▸ hw⟩
+  · rintro ⟨e, hv, hw⟩
+    have he : e < s.len := (mem_segs_getD_lt s hs e v hv).1
+    exact ⟨⟨(), _, _⟩, ⟨e, by simpa using he, by simp [he], rfl, rfl⟩, hv, hw⟩
+
+variable {O A : Type}
+
+theorem stepVia_iff (T : HG O A) (hT : T.wf = true) (e v w : Nat) :
+    stepVia (⟨T.w, T.toPlainEdges, [], []⟩ : PDiag O A) e v w ↔
+      v ∈ T.s.segs.getD e [] ∧ w ∈ T.t.segs.getD e [] := by
+  obtain ⟨hs, _, hsl, _, _, _⟩ := hg_wf_unpack T hT
+  unfold stepVia
+  simp only [toPlainEdges_getElem? T hT]
+  constructor
+  · rintro ⟨he, ⟨_, _, h1, h2⟩, hv, hw⟩
+    exact ⟨h1 ▸ hv, h2 ▸ hw⟩
+  · rintro ⟨hv, hw⟩
+    have he : e < T.x.length := hsl ▸ (mem_segs_getD_lt T.s hs e v hv).1
+    exact ⟨⟨T.x[e], _, _⟩, ⟨he, List.getElem?_eq_getElem he, rfl, rfl⟩, hv, hw⟩
+
+theorem stepVia_lt (T : HG O A) (hT : T.wf = true) (e v w : Nat)
+    (h : stepVia (⟨T.w, T.toPlainEdges, [], []⟩ : PDiag O A) e v w) : e < T.x.length := by
+  obtain ⟨he, h1, _⟩ := h
+  have := (List.getElem?_eq_some_iff.1 h1).1
+  rwa [toPlainEdges_length T hT] at this
+
+theorem mem_map_getD_iff (L : List (List Nat)) (xt : List Nat) (k v : Nat) :
+    v ∈ (xt.map (fun j => L.getD j [])).getD k [] ↔ ∃ e, xt[k]? = some e ∧ v ∈ L.getD e [] := by
+  rw [List.getD_eq_getElem?_getD, List.getElem?_map]
+  cases xt[k]? <;> simp
+
+/-- the node adjacency built from the hyperedges selected by an index list -/
+theorem adjacency_of_indexes (B : Backend) (hB : B.Lawful) (T : HG O A) (hT : T.wf = true)
+    (x : FinFun) (hx : x.WF) (hxt : x.target = T.x.length) :
+    ∃ sX tX a, IC.mapIndexes T.s x = .ok sX ∧ IC.mapIndexes T.t x = .ok tX ∧
+      nodeAdjacencyFromIncidence B sX tX = .ok a ∧ AdjWF a ∧ a.len = T.w.length ∧
+      ∀ v w, adjDep a v w ↔
+        ∃ e ∈ x.table, stepVia (⟨T.w, T.toPlainEdges, [], []⟩ : PDiag O A) e v w := by
+  obtain ⟨hs, ht, hsl, htl, hst, htt⟩ := hg_wf_unpack T hT
+  obtain ⟨hsv, _, hsw⟩ := wf_unpack' T.s hs
+  obtain ⟨htv, _, htw⟩ := wf_unpack' T.t ht
+  obtain ⟨sX, hsX, vsX, tgsX, segsX, _, _⟩ := C08.mapIndexes_spec T.s x hsv hx (by rw [hxt, hsl])
+  obtain ⟨tX, htX, vtX, tgtX, segtX, _, _⟩ := C08.mapIndexes_spec T.t x htv hx (by rw [hxt, htl])
+  have wsX : sX.wf = true := by
+    apply wf_of_valid_segs sX vsX
+    intro seg hseg y hy
+    rw [segsX, List.mem_map] at hseg
+    obtain ⟨j, _, rfl⟩ := hseg
+    rw [tgsX]
+    exact (mem_segs_getD_lt T.s hs j y hy).2
+  have wtX : tX.wf = true := by
+    apply wf_of_valid_segs tX vtX
+    intro seg hseg y hy
+    rw [segtX, List.mem_map] at hseg
+    obtain ⟨j, _, rfl⟩ := hseg
+    rw [tgtX]
+    exact (mem_segs_getD_lt T.t ht j y hy).2
+  have hlen : sX.len = tX.len := by
+    rw [← IC.segs_length, ← IC.segs_length, segsX, segtX]; simp
+  obtain ⟨a, ha, hawf, halen, hdep⟩ := nodeAdjacencyFromIncidence_spec B hB sX tX wsX wtX hlen
+    (by rw [tgsX, tgtX, hst, htt])
+  refine ⟨sX, tX, a, hsX, htX, ha, hawf, by rw [halen, tgsX, hst], ?_⟩
+  intro v w
+  rw [hdep]
+  simp only [segsX, segtX, mem_map_getD_iff, stepVia_iff T hT]
+  constructor
+  · rintro ⟨k, ⟨e, he, hv⟩, ⟨e', he', hw⟩⟩
+    rw [he] at he'; cases he'
+    exact ⟨e, List.mem_of_getElem? he, hv, hw⟩
+  · rintro ⟨e, he, hv, hw⟩
+    obtain ⟨k, hk⟩ := List.getElem?_of_mem he
+    exact ⟨k, ⟨e, hk, hv⟩, ⟨e, hk, hw⟩⟩
+
+/-! ### `PathUsing` as an `RPath` -/
+
+theorem pathUsing_iff_rpath (P : PDiag O A) (inside : Nat → Prop) (u v : Nat) (b : Bool) :
+    PathUsing P inside u v b ↔
+      RPath (fun v w => ∃ e, stepVia P e v w ∧ inside e)
+        (fun v w => ∃ e, stepVia P e v w ∧ ¬ inside e) u v b := by
+  constructor
+  · intro h
+    induction h with
+    | nil => exact RPath.nil
+    | consIn v w e b _ hs hi ih => exact RPath.consIn v w b ih ⟨e, hs, hi⟩
+    | consOut v w e b _ hs hi ih => exact RPath.consOut v w b ih ⟨e, hs, hi⟩
+  · intro h
+    induction h with
+    | nil => exact PathUsing.nil u
+    | consIn v w b _ hs ih =>
+      obtain ⟨e, hs, hi⟩ := hs
+      exact PathUsing.consIn u v w e b ih hs hi
+    | consOut v w b _ hs ih =>
+      obtain ⟨e, hs, hi⟩ := hs
+      exact PathUsing.consOut u v w e b ih hs hi
+
+theorem rpath_congr {Rin Rout Rin' Rout' : Nat → Nat → Prop} (h1 : ∀ v w, Rin v w ↔ Rin' v w)
+    (h2 : ∀ v w, Rout v w ↔ Rout' v w) (u v : Nat) (b : Bool) :
+    RPath Rin Rout u v b ↔ RPath Rin' Rout' u v b := by
+  have e1 : Rin = Rin' := by funext v w; exact propext (h1 v w)
+  have e2 : Rout = Rout' := by funext v w; exact propext (h2 v w)
+  rw [e1, e2]
+
+end OH.Graph
